@@ -151,6 +151,8 @@ def run(prog, rep, tier):
             decided_wrong.add(id(r))
         if p != want_len and p[0] in (">0", ">=0", "==0", "!=0"):
             decided_wrong.add(id(r))
+        if p[0] == "and" and (want_len in p[1] or any(w_ in p[1] for w_ in want_ov)):
+            decided_wrong.add(id(r))       # the wanted test weakened by a further conjunct: raised in fewer cases
     invs = [c2 for c2 in S.select("call", qname=f.qname) if c2.target in ("numpy.linalg.inv", "numpy.linalg.solve", "numpy.linalg.pinv",
                                                                                "numpy.linalg.lstsq", ND + "__init__", ND + "marginal")]
     for k, label in (("len", "len(X) != len(x)"), ("overlap", "Y ∩ X non-empty")):
